@@ -121,10 +121,33 @@ ListProg(i, j, how) ==
           <<>>, <<>>)
 ListProgs == {ListProg(i, j, how) : i \in DOMAIN Firsts, j \in DOMAIN Seconds, how \in {"args", "array", "map"}}
 
+\* (d) array repetition copies its elements deeply before each repetition (spec.md, Arrays): a write through
+\*     one repetition is seen neither through the others nor through the operand, whatever holds the element
+RA(ty) == EVar("a", ty)
+RB(ty) == EVar("b", ty)
+RepProg(lit, n, mutate(_)) ==
+  Program(<<SInfer("a", lit), SInfer("b", EBin("*", RA(lit.ty), ENum(I(n))))>> \o mutate(lit.ty)
+          \o <<SCall(ECallB("print", <<RA(lit.ty), RB(lit.ty), ECallB("len", <<RB(lit.ty)>>)>>)),
+               SCall(ECallB("print", <<EBin("==", EIdx(RB(lit.ty), ENum(I(0))), EIdx(RB(lit.ty), ENum(I(Len(lit.xs))))),
+                                       EBin("==", EIdx(RA(lit.ty), ENum(I(0))), EIdx(RB(lit.ty), ENum(I(Len(lit.xs)))))>>))>>, <<>>, <<>>)
+MutNested(ty) == <<SAsg(EIdx(EIdx(RB(ty), ENum(I(0))), ENum(I(0))), ENum(I(9)))>>
+MutMap(ty) == <<SAsg(EDot(EIdx(RB(ty), ENum(I(0))), K_a), ENum(I(9)))>>
+MutAnyArr(ty) == <<SInfer("c", EAssert(EIdx(RB(ty), ENum(I(0))), TArr(T_num))), SAsg(EIdx(EVar("c", TArr(T_num)), ENum(I(0))), ENum(I(9)))>>
+MutAnyMap(ty) == <<SInfer("c", EAssert(EIdx(RB(ty), ENum(I(0))), TMap(T_num))), SAsg(EDot(EVar("c", TMap(T_num)), K_a), ENum(I(9)))>>
+MutOperand(ty) == <<SAsg(EIdx(EIdx(RA(ty), ENum(I(0))), ENum(I(0))), ENum(I(9)))>>
+RepProgs ==
+  {RepProg(EArr(<<EArr(<<ENum(I(0)), ENum(I(0))>>)>>), n, MutNested) : n \in {1, 2, 3}}
+  \cup {RepProg(EArr(<<EArr(<<ENum(I(0))>>), EArr(<<ENum(I(1))>>)>>), n, MutNested) : n \in {2}}
+  \cup {RepProg(EArr(<<EArr(<<ENum(I(0)), ENum(I(0))>>)>>), n, MutOperand) : n \in {1, 2}}
+  \cup {RepProg(EArr(<<EMap(<<K_a>>, <<ENum(I(1))>>)>>), n, MutMap) : n \in {1, 2}}
+  \cup {RepProg(EArr(<<EArr(<<ENum(I(0)), ENum(I(0))>>), EStr(<<120>>)>>), n, MutAnyArr) : n \in {1, 2}}
+  \cup {RepProg(EArr(<<EMap(<<K_a>>, <<ENum(I(1))>>), ENum(I(5))>>), n, MutAnyMap) : n \in {1, 2}}
+
 Table == NumOps \cup StrOps \cup BoolOps \cup UnOps \cup ArrOps
 
 CasesOf(class, es) == {MkCase("FamExpr", class, PrintProg(e)) : e \in es}
 FamCases == CasesOf("lattice", Lattice) \cup CasesOf("table", Table) \cup {MkCase("FamExpr", "list", p) : p \in ListProgs}
+            \cup {MkCase("FamExpr", "repeat", p) : p \in RepProgs}
 FamInit == InitWith(FamCases)
 
 =============================================================================
